@@ -237,7 +237,7 @@ func init() {
 					t[4] += int64(rng.Intn(3) - 1)
 					// results that agree in all but ONE component are different voxels: same x, y, key at another
 					// horizontal zoom; same zoom and key with x and y exchanged or one of them moved
-					switch rng.Intn(6) {
+					switch rng.Intn(8) {
 					case 0:
 						if nh := t[0] + int64(rng.Intn(3)-1); nh >= 0 && nh <= 35 && t[1] < pow2(nh) && t[2] < pow2(nh) &&
 							(name != "tile2sp" || (nh >= outV-3 && nh <= outV+6)) {
@@ -249,6 +249,16 @@ func init() {
 						if t[1]+1 < pow2(t[0]) {
 							t[1]++
 						}
+					case 3, 4: // (vZoom, z) and (vZoom+1, z - 2^32) are different tiles that agree in vZoom*2^32 + z
+						t = prev
+						if t[4] >= 1<<32 && t[3] < 35 {
+							t[3]++
+							t[4] -= 1 << 32
+						} else if t[3] > 32 && t[4]+(1<<32) < pow2(t[3]-1) {
+							t[3]--
+							t[4] += 1 << 32
+						}
+						t[1], t[2] = randIdx(t[0]), randIdx(t[0])
 					}
 				}
 				switch rng.Intn(40) {
